@@ -3,6 +3,7 @@
 package util
 
 import (
+	"time"
 	"encoding/json"
 	"fmt"
 	"io/fs"
@@ -37,6 +38,7 @@ type VerifRule struct {
 	Val    int    `json:"val,omitempty"` // value stored instead for action "stick"; number of levels for action "quant"
 	IfVal    *int `json:"ifVal,omitempty"`    // writes only: the rule applies only to writes of this value
 	IfNotVal *int `json:"ifNotVal,omitempty"` // writes only: the rule applies only to writes of another value
+	DelayMs  int  `json:"delayMs,omitempty"`  // action "fail" on writes: the error arrives after this many milliseconds (a device that takes its time to refuse)
 	Count    int  `json:"-"`
 }
 
@@ -308,6 +310,11 @@ func (d *VerifDriverT) write(value int, path string, atomicWrite bool) (err erro
 		// "fail-atomic": the file cannot be replaced (bind mount, directory without create permission) but written in place
 		err = &fs.PathError{Op: "write", Path: path, Err: verifErrno(rule.Errno)}
 		ev.Action = "fail"
+		if rule.DelayMs > 0 {
+			d.Mu.Unlock()
+			time.Sleep(time.Duration(rule.DelayMs) * time.Millisecond)
+			d.Mu.Lock()
+		}
 	case rule != nil && rule.Action == "ignore":
 		ev.Action = "ignore"
 	default:
